@@ -76,3 +76,22 @@ package listener
 //@   assert[call:match] len(buf) == t.maxDepth && 0 <= n && n <= t.maxDepth && forall(i, 0, n, buf[i] == ghostBytes(r, "src")[old(ghostInt(r, "rpos")) + i])
 //@   assert[call:match] ghostInt(r, "rpos") == old(ghostInt(r, "rpos")) + n
 //@   ensures ghostInt(r, "rpos") <= old(ghostInt(r, "rpos")) + t.maxDepth
+
+// ---- the matchers handed to the listener (C19): one matcher serves EVERY accepted connection, concurrently (each
+// connection is sniffed in its own goroutine), so it must not carry per-connection state. The constructors build the
+// tree and hand out the tree's own matchPrefix - verified above to read into a buffer allocated per call and to write
+// nothing else - and construct nothing besides (any other call here is outside the verified discipline and is reported)
+//@ func newPatriciaTreeString(strs ...string) (t *patriciaTree)
+//@   trusted
+//@   modifies
+//@   fresh t
+//@ func newPatriciaTree(bs ...[]byte) (t *patriciaTree)
+//@   trusted
+//@   modifies
+//@   fresh t
+//@ func MatchPrefix(strs ...string) (m Matcher)
+//@   calls_only github.com/cnotch/ipchub/network/socket/listener.newPatriciaTreeString
+//@   modifies
+//@ func MatchPrefixBytes(bs ...[]byte) (m Matcher)
+//@   calls_only github.com/cnotch/ipchub/network/socket/listener.newPatriciaTree
+//@   modifies
